@@ -20,6 +20,10 @@ structure DS where
   results of (A, B); `raced` commits to one of them -/
   raceAB : St × String := ({}, "")
   raceBA : St × String := ({}, "")
+  /-- `lrace`: the ledger after the two ledger requests executed one at a time in the order A;B and in the order B;A, each with
+  the results of (A, B); `lraced` commits to one of them -/
+  lraceAB : XV.Ledger.L × String := ({}, "")
+  lraceBA : XV.Ledger.L × String := ({}, "")
 deriving Inhabited
 
 def kvOf (ws : List String) : List (String × String) :=
@@ -229,6 +233,33 @@ def raceSeq (d : DS) (x y : RCall) (swap : Bool) : St × String × String :=
   let res := if swap then r2 ++ "," ++ r1 else r1 ++ "," ++ r2
   (s3, res, s!"{res}/t{s3.pointer}/i{s3.irrev}/p{poolStr s3}")
 
+/-- one ledger request of an `lrace` line (`confirm:<blk>` / `truncate:<blk>`) on ledger `l` -/
+def lcallRun (d : DS) (l : XV.Ledger.L) (c : String) : Option (XV.Ledger.L × String) :=
+  match c.splitOn ":" with
+  | [kind, n] =>
+    match n.toNat? with
+    | none => none
+    | some i =>
+      if kind == "confirm" then
+        let b := d.env.block i
+        let txs := b.txs.map (fun t => (t, (d.env.tx t).coinbase && !d.autogen.contains t))
+        let (l', st) := XV.Ledger.confirm l b.id (b.pre.getD 0) txs
+        some (l', st.toString)
+      else if kind == "truncate" then
+        let (l', ok) := XV.Ledger.truncate l i
+        some (l', if ok then "ok" else "fail")
+      else none
+  | _ => none
+
+/-- two ledger requests one at a time: x, then y; the results are reported as (A, B) -/
+def lraceSeq (d : DS) (x y : String) (swap : Bool) : Option (XV.Ledger.L × String) :=
+  match lcallRun d d.l x with
+  | none => none
+  | some (l1, r1) =>
+    match lcallRun d l1 y with
+    | none => none
+    | some (l2, r2) => some (l2, if swap then r2 ++ "," ++ r1 else r1 ++ "," ++ r2)
+
 def step (d : DS) (line : String) : DS × String :=
   let ws := words line
   match ws with
@@ -298,6 +329,19 @@ def step (d : DS) (line : String) : DS × String :=
     | "truncate" =>
       let (l', ok) := XV.Ledger.truncate d.l (arg 0)
       ({ d with l := l' }, if ok then "ok" else "fail")
+    | "ftruncate" =>
+      -- `Truncate` while every table scan of the ledger breaks off after it=<n> entries with an error
+      let (_, ok) := XV.Ledger.truncateScan d.l (arg 0) ((getKV kv "it").toNat?)
+      let (_, ok0) := XV.Ledger.truncate d.l (arg 0)
+      (d, if ok then "ok" else if ok0 then "fault" else "fail")
+    | "tips" =>
+      -- `GetBranchInfo(block)`; with it=<n> the scan breaks off after n entries: an error, never a shorter list
+      match lookup d.l.B (arg 0), (getKV kv "it").toNat? with
+      | none, _ => (d, "bad-op")
+      | some _, some _ => (d, "fault")
+      | some h, none =>
+        let ts := (XV.Ledger.scanTips d.l (arg 0) h.height).map (·.1)
+        (d, "tips=" ++ String.intercalate "," ((ts.mergeSort (· ≤ ·)).map toString))
     | "mtruncate" =>
       -- `Miner.truncateForMiner`: non-pruning walk to the target, then the ledger cut
       let (s', ok) := walk (walkEnv d (arg 0)) d.s (ledgerH d) (arg 0) false
@@ -341,6 +385,17 @@ def step (d : DS) (line : String) : DS × String :=
     | "raced" =>
       let (s', r) := if pos[0]? == some "ba" then d.raceBA else d.raceAB
       ({ d with s := s' }, r)
+    | "lrace" =>
+      -- both one-at-a-time orders of the two ledger requests; the ledger moves with `lraced`
+      match pos[0]?, pos[1]? with
+      | some a, some b =>
+        match lraceSeq d a b false, lraceSeq d b a true with
+        | some ab, some ba => ({ d with lraceAB := ab, lraceBA := ba }, s!"ab={ab.2} ba={ba.2}")
+        | _, _ => (d, "bad-op")
+      | _, _ => (d, "bad-op")
+    | "lraced" =>
+      let (l', r) := if pos[0]? == some "ba" then d.lraceBA else d.lraceAB
+      ({ d with l := l' }, r)
     | "play" =>
       let (s', r) := play (verifyEnv d) d.s (ledgerH d) (d.env.block (arg 0))
       ({ d with s := s' }, if r == .ok then "ok" else "fail")
@@ -365,7 +420,7 @@ def step (d : DS) (line : String) : DS × String :=
     | "reopen" => (d, "ok")
     | "obs" => (d, observe d ++ " pool=" ++ poolStr d.s)
     | "ledger" => (d, ledgerObs d)
-    | "verify" | "lcheck" | "cmpcopy" | "replica" | "snap" | "crashcheck" | "selrace" | "kvengine" => (d, "-")
+    | "verify" | "lcheck" | "cmpcopy" | "replica" | "snap" | "crashcheck" | "selrace" | "kvengine" | "dumpf" => (d, "-")
     | _ => (d, "bad-op")
 
 def run : IO Unit := loop step {}
